@@ -333,6 +333,28 @@ def _link_after_variant(kind):
     return do, api
 
 
+def _link_shared_then_one_changed(kind):
+    """Two hyperlinks on one slide to the SAME address s (they may share one relationship), then the first is cleared or
+    re-pointed: the second must still read s."""
+    def do(d, s):
+        class OneSlide:
+            sl = d.slide()
+            slide = staticmethod(lambda layout=6: OneSlide.sl)
+
+        mk = _run_link if kind == "run" else _click_link
+        h1, h2 = mk(OneSlide, s), mk(OneSlide, s)
+        sh1 = [x for x in OneSlide.sl.shapes if x.shape_id == h1["id"]][0]
+        link = sh1.text_frame.paragraphs[0].runs[0].hyperlink if kind == "run" else sh1.click_action.hyperlink
+        link.address = None if kind == "run" else "http://elsewhere.example/"  # (the same steps for every s: the skeleton is compared with the control string's)
+        return {"id": h2["id"]}
+
+    def api(prs, h):
+        sh = shape_of(prs, h)
+        return sh.text_frame.paragraphs[0].runs[0].hyperlink.address if kind == "run" else sh.click_action.hyperlink.address
+
+    return do, api
+
+
 def _chart(build, ct="COLUMN_CLUSTERED", after=None, replace=False):
     def do(d, s):
         gf = add_chart(d, cat_data() if replace else build(s), ct)
@@ -471,6 +493,8 @@ def _register():
     for kind in ("run", "click-action"):
         do, api = _link_after_variant("run" if kind == "run" else "click")
         sink("hyperlink:%s:after-near-variant" % kind, "hyperlink-address", do, api, nonempty=True)
+        do2, api2 = _link_shared_then_one_changed("run" if kind == "run" else "click")
+        sink("hyperlink:%s:shared-then-the-other-changed" % kind, "hyperlink-address", do2, api2, nonempty=True)
 
     # ---- charts
     ser_name = lambda prs, h: chart_of(prs, h).plots[0].series[0].name  # noqa: E731
